@@ -565,3 +565,40 @@ def fill(tier, seed, params):
             for _ in range(2 if tier == "quick" else 12):
                 out.append("op=zeroize kind=%s n=%d seed=%d" % (kind, n, rng.randint(0, 10**6)))
     return out
+
+
+ARR_LIST_KS = list(range(0, 65)) + [100, 128, 255, 256]
+ARR_REP_NS = [0, 1, 2, 3, 4, 5, 6, 7, 8, 16, 17, 31, 32, 33, 64, 97, 255, 256, 1000, 1023, 1024]
+
+
+def arrmac(tier, seed, params):
+    out = []
+    for box in (0, 1):
+        for kind in ("copy", "nocopy"):
+            for k in ARR_LIST_KS:
+                trails = (0, 1, 2) if k <= 4 else ((0, 1) if k in (17, 64, 256) else (0,))
+                for tr in trails:
+                    out.append("op=list k=%d trail=%d box=%d kind=%s" % (k, tr, box, kind))
+        for n in ARR_REP_NS:
+            for op in ("repty", "repconst"):
+                out.append("op=%s n=%d box=%d kind=copy" % (op, n, box))
+                if box:
+                    out.append("op=%s n=%d box=%d kind=clone" % (op, n, box))
+    return out
+
+
+def arrconst(tier, seed, params):
+    out = []
+    for k in ARR_LIST_KS:
+        out.append("op=constpos form=list k=%d trail=0 pos=const" % k)
+    for k in (0, 1, 2, 3, 17, 64):
+        out.append("op=constpos form=list k=%d trail=1 pos=const" % k)
+        out.append("op=constpos form=list k=%d trail=0 pos=static" % k)
+        out.append("op=constpos form=list k=%d trail=1 pos=constfn" % k)
+    for n in ARR_REP_NS:
+        for form in ("repty", "repconst"):
+            out.append("op=constpos form=%s n=%d pos=const" % (form, n))
+            if n in (0, 1, 5, 33, 1024):
+                out.append("op=constpos form=%s n=%d pos=static" % (form, n))
+                out.append("op=constpos form=%s n=%d pos=constfn" % (form, n))
+    return out
